@@ -68,6 +68,17 @@ CLAIMS["C12"] = dict(
               "reported as a violation of frame.<Class>.<method> and needs the annotation list to be extended. Third-party rules are assumed "
               "to respect the same frame. Pragma handling shared between rules (compile_pragmas) is covered under C11.")
 
+CLAIMS["C19"] = dict(
+    text="Proof over an abstract, immutable file system (uninterpreted exists/isdir/isfile): a file is eligible iff it is a plain file whose "
+         "name ends with one of the extensions; a path argument errs iff it does not exist or is an ineligible file, and exactly then one error "
+         "is reported and nothing is added; everything added to the set is eligible and nothing is ever removed; only arguments containing * or ? "
+         "are glob-expanded; the result is strictly increasing (each file once, sorted); the error flag implies a reported error; list mode prints "
+         "iff the list is non-empty; in main: a discovery error means process_files_to_scan is never reached, and list mode ends with "
+         "NO_FILES_TO_SCAN iff nothing is selected or an argument erred (independent of argument order).",
+    note=TB + "Known finding D4: arguments that select no file end with SUCCESS. NOT covered: completeness of the directory walk (every eligible "
+              "file under a directory is found; --recurse semantics) because os.walk is opaque; Windows path-separator normalisation; that glob() "
+              "itself matches the documented pattern language.")
+
 NA = {
     "C01": "totality of the ~60 kLoC parser is a postcondition of TokenizedMarkdown.transform; no contract chain within reach without a Python deductive verifier (DESIGN.md 7)",
     "C02": "round-trip of parser + 5 kLoC regenerator needs the token stream specified as an encoding of the document (C03+C04+C05 in full) first (DESIGN.md 7)",
